@@ -213,8 +213,9 @@ class NumpyModel:
             if mr.coef == 0:
                 return ml
             if ml.same_atoms(mr):
+                # same kind of quantity, but not necessarily the same value: magnitude unknown
                 c = None
-                if ml.coef is not None and mr.coef is not None:
+                if not ml.atoms and ml.coef is not None and mr.coef is not None:
                     c = ml.coef + mr.coef if o == '+' else ml.coef - mr.coef
                 return Mono(c, ml.atoms, ml.deg, ml.unit, ml.opaque or mr.opaque)
             return Mono(1.0, {f'({ml.text()} {o} {mr.text()})': 1}, ml.deg, ml.unit if ml.unit == mr.unit else {},
